@@ -53,6 +53,7 @@ static void vf_xgetbv(vf_regs_t *R)
 }
 static void vf_ret(int sp, vf_regs_t *R) { (void) R; if (sp != 0) g_unbalanced = 1; }
 static void vf_pause(void) {}
+#define VF_SPIN_CHECK(c) ((void) 0)
 
 /* ISA levels an implementation family needs */
 enum { VF_BASE, VF_SSE, VF_AVX, VF_AVX2, VF_AVX512, VF_VAES512, VF_SSE_NI, VF_AVX512_NI };
